@@ -96,6 +96,14 @@ class Terms(object):
                     base = self.term(func, node, e.value, env, depth)
                     return ("ver", self.attr(base, e.attr, depth), tuple(weak))
             base = self.term(func, node, e.value, env, depth)
+            if isinstance(e.value, ast.Name) and depth <= self.max_depth:
+                # a property of an object whose class is known (a parameter / local that is only ever an instance of one package class)
+                tys = ctx.cg.var_types.get(func, {}).get(e.value.id, ())
+                if len(tys) == 1:
+                    cls = ctx.pkg.classes.get(next(iter(tys)))
+                    m = ctx.pkg.find_method(cls, e.attr) if cls is not None else None
+                    if m is not None and m.is_property and len(m.params) == 1:
+                        return self.inline_return(m, {m.params[0]: base}, depth + 1)
             return self.attr(base, e.attr, depth)
         if isinstance(e, ast.BinOp):
             a = self.term(func, node, e.left, env, depth)
@@ -331,6 +339,12 @@ class Terms(object):
     def mkslice(base, lo, hi, st):
         """x[a:][:h] == x[a:h] for a >= 0 and h negative or absent (both select the intersection of the two ranges)."""
         none = ("c", None)
+        if all(x[0] == "c" and (x[1] is None or (isinstance(x[1], int) and not isinstance(x[1], bool))) for x in (lo, hi, st)):
+            # a literal sequence cut at literal bounds
+            if base[0] in ("list", "tuple"):
+                return (base[0],) + tuple(base[1:][slice(lo[1], hi[1], st[1])])
+            if base[0] == "c" and isinstance(base[1], (bytes, str, tuple, list)):
+                return ("c", base[1][slice(lo[1], hi[1], st[1])])
         if (base[0] == "slice" and base[3] == none and base[4] == none and st == none and lo == none
                 and base[2][0] == "c" and isinstance(base[2][1], int) and base[2][1] >= 0
                 and (hi == none or (hi[0] == "c" and isinstance(hi[1], int) and not isinstance(hi[1], bool) and hi[1] < 0))):
@@ -493,9 +507,15 @@ class Terms(object):
                     return t
         return ("attr", base, name)
 
-    def _attr_via_init(self, cls, name, bindings, depth):
+    def initial_attr(self, obj, name):
+        """Value of obj.name right after construction (whatever other methods do to it later)."""
+        cls = self.ctx.pkg.classes.get(obj[1]) if obj[0] == "new" else None
+        t = self._attr_via_init(cls, name, dict(obj[2]), 0, initial=True) if cls is not None else None
+        return t if t is not None else ("attr", obj, name)
+
+    def _attr_via_init(self, cls, name, bindings, depth, initial=False):
         """Value of obj.name for an object of class cls: property -> inlined body; data attribute -> the single
-        assignment in __init__ (only if no other method writes it)."""
+        assignment in __init__ (only if no other method writes it, unless the value at construction is asked for)."""
         ctx = self.ctx
         if depth > self.max_depth:
             return None
@@ -522,6 +542,8 @@ class Terms(object):
                 if ok:
                     return C(v)
             return None
+        if initial:
+            writers = [w for w in writers if w[0].name == "__init__"]
         if len(writers) != 1 or writers[0][0].name != "__init__" or writers[0][1].kind != "assign":
             return None
         init, d = writers[0]
@@ -715,6 +737,30 @@ class Terms(object):
                 ok, v = self.ctx.fold.try_eval(callee.defaults[p], callee.mod, {})
                 b[p] = C(v) if ok else ("p", "default:" + p)
 
+    def _container_attrs(self, cls):
+        """instance attributes that __init__ binds to a container (dict / list / set / queue ...): objects changed in place"""
+        cache = self.__dict__.setdefault("_cont_cache", {})
+        if cls not in cache:
+            out = set()
+            init = cls.methods.get("__init__")
+            if init is not None and init.params:
+                sn = init.params[0]
+                for x in walk_own(init.node):
+                    if isinstance(x, ast.Assign):
+                        for t in x.targets:
+                            if isinstance(t, ast.Attribute) and isinstance(t.value, ast.Name) and t.value.id == sn:
+                                v = x.value
+                                if isinstance(v, (ast.Dict, ast.List, ast.Set, ast.DictComp, ast.ListComp, ast.SetComp)):
+                                    out.add(t.attr)
+                                elif isinstance(v, ast.Call):
+                                    fn = v.func.attr if isinstance(v.func, ast.Attribute) else v.func.id if isinstance(v.func, ast.Name) else ""
+                                    if fn in ("dict", "list", "set", "Queue", "deque", "defaultdict", "OrderedDict", "LifoQueue", "PriorityQueue"):
+                                        out.add(t.attr)
+            else:
+                out = None
+            cache[cls] = out
+        return cache[cls]        # None: no constructor to look at - every attribute may be a container
+
     def _inlinable(self, callee):
         """Small, loop-free, non-generator, effect-light functions (their return value as a term is meaningful)."""
         if callee.is_generator:
@@ -727,6 +773,9 @@ class Terms(object):
             # not only on its arguments - it stays an opaque call whatever its size
             selfn = callee.params[0] if callee.params else None
             reads = set(x.attr for x in walk_own(callee.node) if isinstance(x, ast.Attribute) and isinstance(x.value, ast.Name) and x.value.id == selfn)
+            cont = self._container_attrs(callee.cls)
+            if cont is not None:
+                reads &= cont        # scalars (a cursor, a limit) are read at their current value: versioned attribute terms
             for m in callee.cls.methods.values():
                 if m.name == "__init__" or not m.params:
                     continue
